@@ -32,7 +32,7 @@
  *     the context (name, revision, implemented, latest-revision flag, enabled features) is what it was before the call;
  *   - the light health workload is re-run and compared with the baseline; after a failed module load also the full one;
  *   - everything is freed; under ASan the leak checker runs after every case (__lsan_do_recoverable_leak_check) and a
- *     leak aborts the process before the line of the case is complete (the harness then reports CRASH + the report);
+ *     leak is reported as  !leak(<allocating libyang function>,<its caller>)  read from the captured report;
  *   - a successful module load makes the context dirty: it is destroyed (not-freed warnings must be 0) and re-created,
  *     and every re-created context must reproduce the first baseline; at the end of the shard the used context is compared
  *     with a FRESH one on the full workload and destroyed.
@@ -159,6 +159,76 @@ log_cb(LY_LOG_LEVEL level, const char *msg, const char *data_path, const char *s
     if (getenv("RB_DEBUG")) {
         fprintf(stderr, "LOG: %s\n", msg);
     }
+}
+
+/* run the leak checker with its report (fd 2) captured; a leak becomes the word  !leak(<function>,<caller>)  made of the
+ * first two libyang frames of the first allocation stack, so that the harness needs no stderr and the process lives on */
+static void __attribute__((noinline))
+scrub_stack(void)
+{
+    volatile char pad[65536];
+
+    for (size_t i = 0; i < sizeof pad; i += 64) {
+        pad[i] = 0;
+    }
+}
+
+static void
+leak_check(void)
+{
+    static char buf[16384];
+    int saved, n = 0;
+    FILE *tmp;
+    char *p, *q, f1[80] = "?", f2[80] = "?";
+
+    scrub_stack();
+    fflush(stderr);
+    tmp = tmpfile();
+    if (!tmp) {
+        if (__lsan_do_recoverable_leak_check()) {
+            printf(" !leak(?,?)");
+        }
+        return;
+    }
+    saved = dup(2);
+    dup2(fileno(tmp), 2);
+    if (__lsan_do_recoverable_leak_check()) {
+        size_t len;
+
+        dup2(saved, 2);
+        rewind(tmp);
+        len = fread(buf, 1, sizeof buf - 1, tmp);
+        buf[len] = 0;
+        /* frames look like:  #1 0x55.. in func /path/file.c:12:3 */
+        for (p = buf; (p = strstr(p, " in ")); p += 4) {
+            char fn[80], path[256];
+
+            if (sscanf(p + 4, "%79s %255s", fn, path) == 2) {
+                if (strstr(path, "/src/") && !strstr(path, "/impl/")) {
+                    if (n == 0) {
+                        strcpy(f1, fn);
+                    } else if (n == 1) {
+                        strcpy(f2, fn);
+                    }
+                    if (++n == 2) {
+                        break;
+                    }
+                }
+            }
+            q = strchr(p, '\n');
+            if (q && !strncmp(q + 1, "\n", 1) && n) {
+                break;          /* end of the first allocation stack */
+            }
+        }
+        printf(" !leak(%s,%s)", f1, f2);
+        if (getenv("RB_DEBUG")) {
+            fputs(buf, stderr);
+        }
+    } else {
+        dup2(saved, 2);
+    }
+    close(saved);
+    fclose(tmp);
 }
 
 static uint64_t
@@ -1011,12 +1081,8 @@ main(void)
             run_case(&S, &c, nf);
         }
         cpu_limit(0);
-        if (have_lsan && __lsan_do_recoverable_leak_check()) {
-            /* the report is on stderr; the line of this case is left incomplete and the process aborts, so that the
-             * harness attributes the report to this case (CRASH + stderr) */
-            fflush(stdout);
-            fprintf(stderr, "t_robust: memory leak after case %s\n", c.f[1]);
-            abort();
+        if (have_lsan) {
+            leak_check();
         }
         VEND();
     }
